@@ -20,8 +20,8 @@ type hVolPromo struct {
 	Discount *big.Rat
 }
 type HPricing struct {
-	Base   *big.Int // base price in the base denomination (min unit), truncated
-	Denom  string
+	Base   *big.Int // base price in min units of Denom, truncated
+	Denom  string   // the min unit of the pricing token ("stake" = the base denomination; anything else is a foreign token)
 	ByTime []hTimePromo
 	ByVol  []hVolPromo
 }
@@ -53,7 +53,12 @@ func ParseHPricing(text string) (*HPricing, error) {
 		return nil, fmt.Errorf("price amount %q", m[1])
 	}
 	p := &HPricing{Denom: m[2]}
-	p.Base = new(big.Int).Quo(amt.Num(), amt.Denom()) // scale-0 token: the main unit is the min unit; fractions truncate
+	if tok, ok := lookupToken(m[2]); ok && tok.MinUnit != m[2] {
+		// written in the token's main unit: min units = amount * 10^scale
+		amt.Mul(amt, new(big.Rat).SetInt(new(big.Int).Exp(big.NewInt(10), big.NewInt(int64(tok.Scale)), nil)))
+		p.Denom = tok.MinUnit
+	}
+	p.Base = new(big.Int).Quo(amt.Num(), amt.Denom()) // fractions of the min unit truncate
 	for _, t := range raw.ByT {
 		d, ok := new(big.Rat).SetString(t.Discount)
 		if !ok {
@@ -123,15 +128,30 @@ func floorRat(r *big.Rat) *big.Int {
 	return q
 }
 
-// AcceptableFees returns every fee the statement allows for a non-super request at (t, volume).
-func (p *HPricing) AcceptableFees(t time.Time, volume uint64) map[string]bool {
+// Foreign: the pricing is published in a token other than the base denomination.
+func (p *HPricing) Foreign() bool { return p.Denom != "stake" }
+
+// AcceptableFees returns every fee the statement allows for a non-super request at (t, volume). A pricing published in
+// a foreign token is converted into the base denomination at the exchange rate the feed publishes for it (rates); nil
+// is returned when the feed has no usable rate (the request then cannot be priced at all).
+func (p *HPricing) AcceptableFees(t time.Time, volume uint64, rates map[string]string) map[string]bool {
 	out := map[string]bool{}
 	base := new(big.Rat).SetInt(p.Base)
+	tol := eps18
+	if p.Foreign() {
+		rate := rateFor(rates, p.Denom)
+		if rate == nil {
+			return nil
+		}
+		base.Mul(base, rate)
+		// the module multiplies 18-decimal fixed-point numbers step by step: each rounding error is scaled by the rate
+		tol = new(big.Rat).Mul(eps18, new(big.Rat).Add(new(big.Rat).Mul(rate, big.NewRat(2, 1)), big.NewRat(2, 1)))
+	}
 	for _, dt := range p.timeDiscounts(t) {
 		for _, dv := range p.volDiscounts(volume) {
 			prod := new(big.Rat).Mul(base, dt)
 			prod.Mul(prod, dv)
-			for _, adj := range []*big.Rat{new(big.Rat), eps18, new(big.Rat).Neg(eps18)} {
+			for _, adj := range []*big.Rat{new(big.Rat), tol, new(big.Rat).Neg(tol)} {
 				v := new(big.Rat).Add(prod, adj)
 				f := floorRat(v)
 				if f.Sign() < 1 {
@@ -144,10 +164,14 @@ func (p *HPricing) AcceptableFees(t time.Time, volume uint64) map[string]bool {
 	return out
 }
 
-// MinDepositFor: max(minDeposit, base * multiple).
+// MinDepositFor: max(minDeposit, base * multiple). For a pricing published in a foreign token the statement's "base
+// price times the multiple" has no reading in the deposit's denomination; only the global minimum is demanded then.
 func (p *HPricing) MinDepositFor(minDeposit, multiple int64) *big.Int {
 	m := new(big.Int).Mul(p.Base, big.NewInt(multiple))
 	md := big.NewInt(minDeposit)
+	if p.Foreign() {
+		return md
+	}
 	if m.Cmp(md) < 0 {
 		return md
 	}
